@@ -555,6 +555,22 @@ func runRPC(t *testing.T, rc *core.RunCtx, prop string) {
 					}
 				}
 			}
+			// the mirror agrees with itself: a state is active exactly when its
+			// tick is odd (activity is cached separately from the clocks)
+			{
+				nm := cli.NetMach
+				tm, names := nm.Time(nil), nm.StateNames()
+				for _, u := range tracked {
+					i := slices.Index(names, u)
+					if i < 0 || i >= len(tm) {
+						continue
+					}
+					if nm.Is1(u) != (tm[i]%2 == 1) {
+						s.Fail(prop+"/mirror-activity/"+ctxKey(), "the network machine says %s active=%v while its tick for it is %d (active states %v, time %v)", u, nm.Is1(u), tm[i], nm.ActiveStates(nil), tm)
+						return
+					}
+				}
+			}
 			// convergence (one client Sync when nothing pushes or after NS calls)
 			nmNames := cli.NetMach.StateNames()
 			want := proj(src.Time(nil), srcNames)
